@@ -7,6 +7,7 @@ import (
 	"fmt"
 	"os"
 	"path/filepath"
+	"strings"
 	"sync"
 	"time"
 
@@ -144,9 +145,9 @@ func Validate(c *core.Ctx, traces []string, name string) (*ValStats, error) {
 			sem <- struct{}{}
 			defer func() { <-sem }()
 			outp := t.chunk + "." + t.module + ".bad"
-			res, err := tlc.Run(tlc.Opts{
+			res, err := runTLC(c, tlc.Opts{
 				SpecDirs: []string{specDir(c)}, Module: t.module, Config: t.module + ".cfg",
-				Workers: 1, Timeout: 20 * time.Minute, HeapMB: 3000, Scratch: c.Work,
+				Workers: 1, Timeout: 8 * time.Minute, HeapMB: 3000, Scratch: c.Work,
 				Env: map[string]string{"VERIF_TRACE": t.chunk, "VERIF_OUT": outp, "JAVA_TOOL_OPTIONS": "-XX:ActiveProcessorCount=2"},
 			})
 			mu.Lock()
@@ -178,4 +179,15 @@ func Validate(c *core.Ctx, traces []string, name string) (*ValStats, error) {
 	wg.Wait()
 	st.Wall = time.Since(start)
 	return st, firstErr
+}
+
+// runTLC runs TLC and retries once when it times out (a JVM was seen to hang
+// once on an overloaded machine; a second hang is reported as infrastructure error).
+func runTLC(c *core.Ctx, o tlc.Opts) (*tlc.Result, error) {
+	res, err := tlc.Run(o)
+	if err != nil && strings.Contains(err.Error(), "timed out") {
+		c.Warn(fmt.Sprintf("TLC %s timed out after %v, retrying once", o.Module, o.Timeout))
+		return tlc.Run(o)
+	}
+	return res, err
 }
